@@ -4,6 +4,6 @@ CONSTANTS V = 1
           MaxCap = 1
           MaxMsgs = 3
           MaxOps = 1
-          Hops = {1, 9, 300}
+          Hops = {"h1", "h9", "h256", "hTop"}
 ACTION_CONSTRAINT ExportEdge
 VIEW View
